@@ -314,6 +314,10 @@ class Intrinsics:
         return [(i + start, x) for i, x in enumerate(P.iterate(it))]
 
     def b_zip(self, P, *its, strict=False):
+        from . import zipseqs   # zipseqs: zip of symbolic key sequences
+        z = zipseqs.make_zip(its) if not strict else None
+        if z is not None:
+            return z
         ls = [P.iterate(i) for i in its]
         if strict and len(set(len(l) for l in ls)) > 1:
             from .interp import SymRaise, mk_exc
@@ -924,6 +928,10 @@ class Intrinsics:
 
     def s_seq_at(self, P, seq, i):
         return containers.seq_at(P, seq, i)
+
+    def s_pair_snd_at(self, P, seq, i):   # zipseqs
+        from . import zipseqs
+        return zipseqs.pair_snd_at(P, seq, i)
 
     def s_seq_len(self, P, seq):
         return containers.seq_len(P, seq)
